@@ -9,7 +9,7 @@ import (
 func init() { register("C16", propC16) }
 
 func propC16(c *Ctx) {
-	c.Explanation = "Model equivalence with a plain byte string over operation histories is behavioural and not decided. Decided (for all counts/lengths, including negative, zero and beyond the size): (V1) View.CapLength re-slices with a three-index expression whose cap equals its length, so a capped view cannot be re-extended; View.TrimFront drops exactly count bytes; (V2) the size field moves in step with the chunks in every mutator of VectorisedView: the complete exact-guard site tables of TrimFront (partial trim of the first chunk: size -= count and the chunk loses count bytes; otherwise the whole first chunk goes and count shrinks by its length), RemoveFirst (size -= len(first chunk), chunk list loses its head; no-op when empty) and CapLength (negative lengths are 0, longer-than-size is a no-op, size = length, the chunk list is cut after the chunk where the length is reached and that chunk is capped to the remainder); (V3) Clone copies the chunk list into the caller's buffer re-sliced to zero length - the clone never shares the original's list of chunks - and keeps the size; First is views[0] or nil; ToView concatenates all chunks in order into a fresh slice; (V4) none of these functions can index or slice out of range for any argument (interval + linear-fact analysis; requirements on callers such as count <= len are discharged at the call sites inside the package and, for the inbound path, in C07); (V5) Prependable.Prepend returns nil unless size <= usedIdx, otherwise moves usedIdx down by size and returns exactly size bytes with cap = len. NOT decided: equivalence with the byte-string model over all operation sequences and chunkings."
+	c.Explanation = "Model equivalence with a plain byte string over operation histories is behavioural and not decided. Decided (for all counts/lengths, including negative, zero and beyond the size): (V1) View.CapLength re-slices with a three-index expression whose cap equals its length, so a capped view cannot be re-extended; View.TrimFront drops exactly count bytes; (V2) the size field moves in step with the chunks in every mutator of VectorisedView: the complete exact-guard site tables of TrimFront (partial trim of the first chunk: size -= count and the chunk loses count bytes; otherwise the whole first chunk goes and count shrinks by its length), RemoveFirst (size -= len(first chunk), chunk list loses its head; no-op when empty) and CapLength (negative lengths are 0, longer-than-size is a no-op, size = length, the chunk list is cut after the chunk where the length is reached and that chunk is capped to the remainder); (V3) Clone copies the chunk list into the caller's buffer re-sliced to zero length - the clone never shares the original's list of chunks - and keeps the size; First is views[0] or nil; ToView concatenates all chunks in order into a fresh slice; (V4) none of these functions can index or slice out of range for any argument (interval + linear-fact analysis; requirements on callers such as count <= len are discharged at the call sites inside the package and, for the inbound path, in C07); (V5) Prependable.Prepend returns nil unless size <= usedIdx, otherwise moves usedIdx down by size and returns exactly size bytes with cap = len. (V6) the one-line accessors and constructors return exactly the reviewed expressions (UsedLength = len(buf) - usedIdx, ...). NOT decided: equivalence with the byte-string model over all operation sequences and chunkings."
 	bv := "(*buffer.VectorisedView)."
 	v1 := c.Rule("V1", "SSA shape", "View.CapLength is a three-index slice with cap == len", 2)
 	if fn := c.Fn(v1, "(*buffer.View).CapLength"); fn != nil {
@@ -118,6 +118,24 @@ func propC16(c *Ctx) {
 					c.Bad(v4, key, c.pos(o.Instr), "unproved: "+o.Goal.String()+" <= 0")
 				}
 			}
+		}
+	}
+
+	// V6: the one-line accessors and constructors everything else is written in
+	v6 := c.Rule("V6", "K9 site tables (closed)", "accessors and constructors: UsedLength = len(buf) - usedIdx, View = buf[usedIdx:], Size = size, ...", 9)
+	for _, t := range []struct{ fn, ret, why string }{
+		{"buffer.Prependable.UsedLength", "(builtin:len($0.buf) - $0.usedIdx)", "the used length is the distance from the start of the used region to the END of the bytes (len, not cap)"},
+		{"buffer.Prependable.View", "$0.buf[$0.usedIdx:]", "the used region is the tail of the buffer"},
+		{"buffer.NewPrependable", "buffer.Prependable{buf: buffer.NewView($0), usedIdx: $0}", "a fresh prependable of n bytes has nothing used: usedIdx = n"},
+		{"buffer.NewPrependableFromView", "buffer.Prependable{buf: $0, usedIdx: 0}", "a prependable made from a view has all of it used"},
+		{"buffer.VectorisedView.Size", "$0.size", "Size is the size field (kept in step with the chunks: V2)"},
+		{"buffer.VectorisedView.Views", "$0.views", "Views is the chunk list"},
+		{"buffer.NewView", "make(buffer.View, $0, $0)", "a new view has length = capacity = n"},
+		{"buffer.NewViewFromBytes", "builtin:append(nil, $0)", "a view from bytes is a copy"},
+		{"buffer.NewVectorisedView", "buffer.VectorisedView{views: $1, size: $0}", "size and chunks as given"},
+	} {
+		if fn := c.Fn(v6, t.fn); fn != nil {
+			c.CheckSites(v6, fn, []SiteSpec{{Kind: "return", Args: []string{t.ret}, Guards: []string{}, Exact: true, N: 1, Why: t.why}})
 		}
 	}
 
